@@ -122,6 +122,18 @@ def handleCo (op : String) (args : List String) : String :=
         let q := normalize true a b
         s!"{showRat q.1} {showRat q.2}"
       | _, _ => "ERR:Value"
+  | "fromxyz", [_kind, x, y, z] =>
+    -- `Coordinate._from_xyz([x, y, z])` on an arbitrary vector (bit-exact components, signed zeros kept):
+    -- asin / atan2 at the Float instance, then the normalising constructor
+    match parseFloat x, parseFloat y, parseFloat z with
+    | some a, some b, some c =>
+      let r := fromXyzRaw (a, b, c)
+      match floatToRat r.1, floatToRat r.2 with
+      | some lo, some la =>
+        let q := normalize true lo la
+        s!"{showRat q.1} {showRat q.2}"
+      | _, _ => "ERR:Value"
+    | _, _, _ => "bad-op"
   | _, _ => "bad-op"
 
 end GV.Drv
